@@ -648,7 +648,13 @@ def rule_election_resets_votes(ctx, rule="R27i"):
           any(cb.path in [x.path for x in resets] for cb in common.closure_bodies_passed(fa, b, t))]
     direct = [bi for bi, st in cfg.assigns(b) if st["l"][-1:] == [".voted"] and st["r"]["k"] == "use" and
               cfg.op_const(st["r"]["o"]) is not None and cfg.op_const(st["r"]["o"]).get("v") == 0 and any(bi in c for c in cfg.sccs(b))]
-    sites = fe + direct
+    # a reset written as a loop: the loop itself (its `next()` call) is what every path must pass; zero peers = nothing to reset
+    loop_heads = []
+    for bi in direct:
+        for c in cfg.sccs(b):
+            if bi in c:
+                loop_heads += [i for i, t in cfg.calls(b) if i in c and (cfg.callee_decl(t) or cfg.callee(t) or "").endswith("Iterator::next")]
+    sites = fe + (loop_heads if loop_heads else direct)
     okb = cfg.return_blocks(b)
     ok = bool(sites) and cfg.find_path(b, [0], okb, avoid=sites) is None
     ctx.ob(rule, "election:resets-voted", ok,
